@@ -63,7 +63,7 @@ func init() {
 
 	Engines["C09"] = chainEngine("C09", &sim.ChainCfg{Model: true, Conserve: true},
 		func(tier string) *sim.GenParams {
-			return &sim.GenParams{Mix: sim.OpMix{"invoke": 12, "tx": 2, "kvtx": 2, "mine": 4, "deliver": 2, "walk": 1}, MaxSteps: steps(tier, 20, 36), MaxNodes: 2, Windows: []int{0}, MapOrders: true, SmallCache: true, NoTinyUtxo: true}
+			return &sim.GenParams{Mix: sim.OpMix{"invoke": 12, "tx": 4, "kvtx": 2, "mine": 4, "deliver": 2, "walk": 1}, MaxSteps: steps(tier, 20, 36), MaxNodes: 2, Windows: []int{0}, MapOrders: true, SmallCache: true, NoTinyUtxo: true}
 		}, "", func(st *sim.RunStats) bool {
 			return st.Probes["commit-effect-checked"] > 0 && st.Probes["invoke-admitted"] > 1
 		})
